@@ -406,6 +406,47 @@ example :
       | .ok (rec, _) => decrypt toy srcDtlcp .dtlcp ⟨some (.cbc ⟨[1], [2], [3]⟩), none, be 2 1 ++ be 6 7⟩ rec
       | _ => .panic) = .ok ([10, 20, 30], ⟨some (.cbc ⟨[1], [2], [3]⟩), none, be 2 1 ++ be 6 7⟩) := by decide
 
+/-! ### records of an independent sender -/
+
+/-- The receiver opens what ANY conforming sender seals: for both stacks, every key with a 4-byte
+write IV, every type / version / epoch / sequence number, every content and EVERY 8-byte explicit
+nonce `e` — the sender's choice (RFC 5288 section 3: it "MAY be the 64-bit sequence number"; a
+counter with a random start, all-zero, anything) — the model's `decrypt`, with the sequence
+number of the record loaded as the receive paths load it, opens the standard's SM4-GCM sealing
+`Spec.KeySchedule.sealGCM` (nonce = write IV ‖ e, additional data = seq_num + type + version +
+length) to exactly the content, for any AEAD with `open ∘ seal = id`.  `C04_record_roundtrip` is the
+instance `e` = sequence number, the only one gotlcp's own `encrypt` produces.  (TLCP at sequence
+number 2^64-1: the receiver's `incSeq` panics, as the sender's would.) -/
+theorem C04_open_any_explicit_nonce (P : Prims) (L : Laws P) (st : Stack) (k : DirKeys) (next : Option Cipher)
+    (typ ver epoch seq : Nat) (e content : Bytes) (he : e.length = 8) (hiv : k.iv.length = 4) :
+    match decrypt P (srcOf st) st ⟨some (.aead k), next, Spec.KeySchedule.seqNum (specStack st) epoch seq⟩
+        (Spec.KeySchedule.sealGCM P (specKeys k) (specStack st) typ ver epoch seq e content) with
+    | .ok (pt, _) => pt = content
+    | .panic => st = .tlcp ∧ incSeq (Spec.KeySchedule.seqNum (specStack st) epoch seq) = none
+    | .alert _ => False := by
+  cases st with
+  | tlcp =>
+    have h := open_foreign_nonce_tlcp P L k next typ ver epoch seq e content he hiv
+    revert h; simp only [srcOf, specStack, specKeys]
+    generalize decrypt P srcTlcp .tlcp _ _ = r
+    intro h; cases r <;> simp_all
+  | dtlcp =>
+    have h := open_foreign_nonce_dtlcp P L k next typ ver epoch seq e content he hiv
+    revert h; simp only [srcOf, specStack, specKeys]
+    generalize decrypt P srcDtlcp .dtlcp _ _ = r
+    intro h; cases r <;> simp_all
+
+/-- non-vacuity: a DTLCP record for epoch 1 / sequence number 7 whose explicit nonce is all-ones
+(resp. a TLCP record with an all-zero one) opens to its content -/
+example :
+    decrypt toy srcDtlcp .dtlcp ⟨some (.aead ⟨[], [2], [3, 3, 3, 3]⟩), none, be 2 1 ++ be 6 7⟩
+      (Spec.KeySchedule.sealGCM toy ⟨[], [2], [3, 3, 3, 3]⟩ .dtlcp 23 257 1 7 (List.replicate 8 255) [10, 20, 30])
+      = .ok ([10, 20, 30], ⟨some (.aead ⟨[], [2], [3, 3, 3, 3]⟩), none, be 2 1 ++ be 6 7⟩) := by decide
+example :
+    (match decrypt toy srcTlcp .tlcp ⟨some (.aead ⟨[], [2], [3, 3, 3, 3]⟩), none, be 8 7⟩
+      (Spec.KeySchedule.sealGCM toy ⟨[], [2], [3, 3, 3, 3]⟩ .tlcp 23 257 0 7 (List.replicate 8 0) [10, 20, 30]) with
+     | .ok (pt, h) => (pt, h.seq) | _ => ([], [])) = ([10, 20, 30], be 8 8) := by decide
+
 /-! ### explicit IV / explicit nonce (DESIGN: C04_cbc_iv_fresh) -/
 
 /-- What travels in the clear in front of the ciphertext: for CBC the 16 bytes just read from the
